@@ -5,6 +5,7 @@
    pre-bound schema [preset]: [Ok (schema afterwards, instances of the rows delivered)] or the
    exception; [nav_name s k r] = row.name(k).value(), [Ok None] being the list [None] that
    WBNav.name substitutes for a missing cell; [values s r] = row.values();
+   [read_after bs sheet] = the same after the binding calls bs (set_schema / set_schema_loader) on a fresh Sheet;
    [ext_load_meta] = ExternalSchemaLoader(sheet).load() under the documented protocol;
    [hand_schema names] = {type: object, properties: {name: {type: string}, ...}}.
    Spec/Table.v: [data_rows], [cells_in_header_order], [with_positions], [first_cells].
@@ -90,6 +91,23 @@ Theorem C09_external_loads : forall (meta : sheet) (names : list key),
   exists s, ext_load_meta meta = Ok s.
 Proof. intros meta names H Hnd. eexists. exact (ext_load_nodup meta names H Hnd). Qed.
 Print Assumptions C09_external_loads.
+
+(* Binding calls on one Sheet object (set_schema, set_schema_loader, in any order and number)
+   before rows(): the last call decides.  After any sequence ending in set_schema s the sheet
+   is read by [row_iter NoLoader (Some s)] - every physical row is delivered and s is the
+   schema, so C09_external applies whatever loader had been installed before; after any
+   sequence ending in set_schema_loader(HeadingRowSchemaLoader()) it is read by
+   [row_iter HeadingRow _] - the rows after the first are delivered and C09_by_name,
+   C09_values, C09_permutation apply. *)
+Theorem C09_binding_last_wins :
+  (forall (bs : list binding) (s : schema) (data : sheet),
+     read_after (bs ++ [SetSchema s]) data = row_iter NoLoader (Some s) data
+     /\ read_after (bs ++ [SetSchema s]) data = Ok (Some s, data))
+  /\ (forall (bs : list binding) (sh : sheet),
+       (exists pre, read_after (bs ++ [SetLoader HeadingRow]) sh = row_iter HeadingRow pre sh)
+       /\ (exists os, read_after (bs ++ [SetLoader HeadingRow]) sh = Ok (os, data_rows sh))).
+Proof. exact binding_last_wins. Qed.
+Print Assumptions C09_binding_last_wins.
 
 (* ---- non-vacuity: the hypotheses of each implication are satisfiable ---- *)
 Definition ex_a : cell := Txt [97; 32; 98]%N.          (* 'a b' *)
